@@ -274,6 +274,17 @@ def run_case(case, ctx):
         frames.append((sig, f))
         ctx.state((kinds, n, sig))
         structural(ctx, f, cols, n, m, dict(kinds=kinds, nrows=n, layout=sig))
+    # the coarsest layout once more with every 2-D block stored column-major (what transposition and some NumPy routines produce): memory order is part of the layout
+    sigc, blocksc = lays[-1]
+    if any(b.ndim == 2 and b.shape[0] > 1 and b.shape[1] > 1 for b in blocksc):
+        fb = []
+        for b in blocksc:
+            if b.ndim == 2:
+                b = np.asfortranarray(b)
+                b.flags.writeable = False
+            fb.append(b)
+        frames.append((tuple(sigc) + ('F-order',), U.frame_from_blocks(fb, n, index=index, columns=columns, name='fn')))
+        ctx.state((kinds, n, 'F-order', sigc))
     base_snaps = [snap(f) for _, f in frames]
     if len(set(map(repr, base_snaps))) != 1:
         ctx.violation('harness|layouts-differ-at-construction', kinds=kinds, nrows=n)
